@@ -25,6 +25,8 @@ class Violation19(Exception):
 
 
 class CacheHooks(StdHooks):
+    value_init_zero = True  # `T()` zeroes the members of T before a constructor that is not user-provided runs
+
     def __init__(self, interfere=None):
         StdHooks.__init__(self)
         self.published = set()  # record names pushed during the current operation
@@ -208,14 +210,58 @@ class Cache:
         self.ctor = db.one(unit_name, '%s::cache' % cls)
         self.N = None
         self.seen = {}  # per cache object: records that have been on a list
+        self.static_storage = True
+
+    def zero_object(self, rec_name, tag):
+        """an object of static storage duration before any constructor runs: every scalar zero, every pointer null"""
+        import re as _re
+        recs = [r for r in self.unit.records if (r.get('spec') or r['name']) == rec_name or r['name'] == rec_name]
+        o = Obj(rec_name, None, tag)
+        if not recs:
+            return o
+        for f in recs[0]['fields']:
+            t = f['t']
+            m = _re.match(r'^(.*)\[(\d+)\]$', t)
+            if m:
+                et, cnt = m.group(1).strip(), int(m.group(2))
+                reg = Region('%s.%s' % (tag, f['name']), cnt, None, 'member')
+                for i in range(cnt):
+                    reg.cell(i).value = self.zero_value(et, '%s.%s[%d]' % (tag, f['name'], i))
+                o.field(f['name']).value = reg
+            else:
+                o.field(f['name']).value = self.zero_value(t, '%s.%s' % (tag, f['name']))
+        return o
+
+    def zero_value(self, t, tag):
+        t = t.strip()
+        if t.endswith('*'):
+            return NULL
+        if t in ('double', 'float', 'long double'):
+            return Poly.const(0)
+        if t in ('bool', 'char', 'unsigned char', 'short', 'unsigned short', 'int', 'unsigned int', 'long', 'unsigned long', 'size_t', 'uint32_t', 'uint64_t', 'unsigned long long', 'long long'):
+            return 0
+        if t.startswith('std::atomic<'):
+            inner = t[len('std::atomic<'):-1]
+            return self.zero_value(inner, tag)
+        return self.zero_object(t, tag)
 
     def new(self, hooks=None):
         hooks = hooks or CacheHooks()
         it = Interp(self.unit, hooks)
-        this = Cell(Obj(self.cls, None, 'cache'), None, 0, 'cache')
+        # the caches are objects of static or thread storage duration: zero-initialised before their constructor runs
+        # (a constructor that leaves members alone - constant initialisation - therefore starts from zeros, not from garbage)
+        this = Cell(self.zero_object(self.cls, 'cache') if self.static_storage else Obj(self.cls, None, 'cache'), None, 0, 'cache')
         it.call(self.ctor, this, [])
-        ent = this.value.fields['entries'].value
-        self.N = ent.size
+        try:
+            self.N = this.value.fields['entries'].value.size
+        except (KeyError, AttributeError):
+            # another representation: the capacity is the template argument
+            import re as _re
+            m = _re.search(r',\s*(\d+)U?>$', self.cls)
+            if not m:
+                raise AnalysisBroken('capacity of %s not found' % self.cls)
+            self.N = int(m.group(1))
+            self.opaque = True
         return this, it, hooks
 
     def heads(self, this):
@@ -252,7 +298,15 @@ class Cache:
     def check_conservation(self, this):
         """no record on both lists or twice on one; a record that has been on a list is on exactly one list after every
         operation.  (A design that links records lazily never has the unused ones on a list: they are not missed.)"""
-        free, data = self.lists(this)
+        if getattr(self, 'opaque', False):
+            return None, None
+        try:
+            free, data = self.lists(this)
+        except (KeyError, AttributeError):
+            # the two intrusive lists are not there under the names this rule was armed on: the pool is judged by its
+            # behaviour only (rule F.stack.spec)
+            self.opaque = True
+            return None, None
         both = sorted(free + data)
         if len(set(both)) != len(both) or any(not (0 <= r < self.N) for r in both):
             raise Violation19('F.rec.conserve', 'records on the free list %s and the data list %s do not partition the %d records' % (free, data, self.N), None)
@@ -324,7 +378,7 @@ def explore_sequences(cache, rep, label, prefix_fills, length, where, typestate=
                         if got != want:
                             raise Violation19('F.stack.spec', 'fetch returned %s, the last inserted block not yet fetched is %s' % (got, want), None)
                     free, data = cache.check_conservation(this)
-                    if len(data) != len(model):
+                    if data is not None and len(data) != len(model):
                         raise Violation19('F.rec.conserve', 'data list holds %d records for %d stored blocks' % (len(data), len(model)), None)
             except NullDeref as e:
                 rep.fail('F.stack.spec', site, where, 'bounded last-in-first-out pool: insert fails iff full, fetch fails iff empty',
